@@ -38,7 +38,19 @@ Record gcoord := mkG { g_nc : option addr; g_pnc : option addr; g_ring : option 
 
 (* a field or domain as the writer sees it: the geometry variables of its
    auxiliary coordinates, in order, and every other mutable component *)
-Record obj := mkO { o_geo : list gcoord; o_other : list addr }.
+Inductive ckind := KList | KCount | KIndex | KBounds | KRing | KOther.
+
+Record obj := mkO { o_geo : list gcoord; o_other : list (ckind * addr) }.
+
+(* How copy_construct treats a component of each kind: true = the copy holds a NEW object
+   (cfdm/data/gatheredarray.py:120 and data/abstract/raggedarray.py:111-114:
+   _set_component("list_variable" | "count_variable" | "index_variable", ..., copy=copy) with
+   copy=True when an array is initialised from a source; bounds and interior ring:
+   value.copy() in PropertiesDataBounds.__init__) *)
+Definition deep_copied (k : ckind) : bool := true.
+
+(* seeded change (second round): GatheredArray.__init__ shares the list variable of its source *)
+Definition list_shared (k : ckind) : bool := match k with KList => false | _ => true end.
 
 Definition opt_addrs (o : option addr) : list addr := match o with Some a => [a] | None => [] end.
 
@@ -48,7 +60,7 @@ Definition geo_addrs (k : nat) (l : list gcoord) : list addr :=
 Definition kind_addrs (k : nat) (o : obj) : list addr := geo_addrs k (o_geo o).
 
 Definition obj_addrs (o : obj) : list addr :=
-  kind_addrs 0 o ++ kind_addrs 1 o ++ kind_addrs 2 o ++ o_other o.
+  kind_addrs 0 o ++ kind_addrs 1 o ++ kind_addrs 2 o ++ map snd (o_other o).
 
 (* ---- copy_construct: every component is a new object with the same content ------- *)
 Definition copy_opt (hn : heap * nat) (o : option addr) : (heap * nat) * option addr :=
@@ -68,18 +80,23 @@ Fixpoint copy_geo (hn : heap * nat) (l : list gcoord) : (heap * nat) * list gcoo
       (hn4, mkG a b c :: r')
   end.
 
-Fixpoint copy_list (hn : heap * nat) (l : list addr) : (heap * nat) * list addr :=
+Fixpoint copy_list (D : ckind -> bool) (hn : heap * nat) (l : list (ckind * addr))
+  : (heap * nat) * list (ckind * addr) :=
   match l with
   | [] => (hn, [])
-  | a :: r =>
-      let '(h, n) := hn in
-      let '(hn1, r') := copy_list (hset h n (hget h a), S n) r in
-      (hn1, n :: r')
+  | (k, a) :: r =>
+      if D k then
+        let '(h, n) := hn in
+        let '(hn1, r') := copy_list D (hset h n (hget h a), S n) r in
+        (hn1, (k, n) :: r')
+      else
+        let '(hn1, r') := copy_list D hn r in
+        (hn1, (k, a) :: r')
   end.
 
-Definition copy_obj (hn : heap * nat) (o : obj) : (heap * nat) * obj :=
+Definition copy_obj (D : ckind -> bool) (hn : heap * nat) (o : obj) : (heap * nat) * obj :=
   let '(hn1, g) := copy_geo hn (o_geo o) in
-  let '(hn2, l) := copy_list hn1 (o_other o) in
+  let '(hn2, l) := copy_list D hn1 (o_other o) in
   (hn2, mkO g l).
 
 (* ---- conform_geometry_variables ---------------------------------------------------- *)
@@ -127,28 +144,28 @@ Inductive instr :=
 
 Record state := mkS { s_heap : heap; s_next : nat; s_cur : obj }.
 
-Definition exec1 (s : state) (i : instr) : option state :=
+Definition exec1 (D : ckind -> bool) (s : state) (i : instr) : option state :=
   match i with
   | IInspect => Some s
   | ICopy =>
-      let '((h, n), o) := copy_obj (s_heap s, s_next s) (s_cur s) in Some (mkS h n o)
+      let '((h, n), o) := copy_obj D (s_heap s, s_next s) (s_cur s) in Some (mkS h n o)
   | IConform =>
       match conform (s_heap s) (s_cur s) with
       | Some h => Some (mkS h (s_next s) (s_cur s))
       | None => None
       end
   | ISet i k v =>
-      match nth_error (o_other (s_cur s)) i with
+      match nth_error (map snd (o_other (s_cur s))) i with
       | Some a => Some (mkS (hset (s_heap s) a ((k, v) :: hget (s_heap s) a)) (s_next s) (s_cur s))
       | None => Some s
       end
   end.
 
 (* runs until an instruction raises; returns the state reached and whether it raised *)
-Fixpoint exec (s : state) (p : list instr) : state * bool :=
+Fixpoint exec (D : ckind -> bool) (s : state) (p : list instr) : state * bool :=
   match p with
   | [] => (s, false)
-  | i :: r => match exec1 s i with Some s' => exec s' r | None => (s, true) end
+  | i :: r => match exec1 D s i with Some s' => exec D s' r | None => (s, true) end
   end.
 
 (* _write_field_or_domain, as it stands: checks, copy, conform (CF >= 1.8), then the rest *)
@@ -160,13 +177,17 @@ Definition writer_prog_deferred_copy (cf18 : bool) (later : list instr) : list i
   [IInspect] ++ (if cf18 then [IConform] else []) ++ [ICopy] ++ later.
 
 (* for f in fields: self._write_field_or_domain(f) *)
-Fixpoint write_all (prog : list instr) (h : heap) (n : nat) (fields : list obj) : heap * nat * bool :=
+Fixpoint write_all_d (D : ckind -> bool) (prog : list instr) (h : heap) (n : nat) (fields : list obj)
+  : heap * nat * bool :=
   match fields with
   | [] => (h, n, false)
   | f :: r =>
-      let '(s, err) := exec (mkS h n f) prog in
-      if err then (s_heap s, s_next s, true) else write_all prog (s_heap s) (s_next s) r
+      let '(s, err) := exec D (mkS h n f) prog in
+      if err then (s_heap s, s_next s, true) else write_all_d D prog (s_heap s) (s_next s) r
   end.
+
+(* the code as it stands: every component is copied *)
+Definition write_all := write_all_d deep_copied.
 
 (* no mutating instruction before the first copy *)
 Fixpoint copy_first (p : list instr) : bool :=
@@ -239,29 +260,29 @@ Proof.
       * eapply F4. exact Ha.
 Qed.
 
-Lemma copy_list_spec n0 l : forall h n h' n' l',
-  (n0 <= n)%nat -> copy_list (h, n) l = ((h', n'), l') ->
-  agree n0 h h' /\ (n <= n')%nat /\ (forall a, In a l' -> (n0 <= a)%nat).
+Lemma copy_list_spec D n0 l : (forall k, D k = true) -> forall h n h' n' l',
+  (n0 <= n)%nat -> copy_list D (h, n) l = ((h', n'), l') ->
+  agree n0 h h' /\ (n <= n')%nat /\ (forall a, In a (map snd l') -> (n0 <= a)%nat).
 Proof.
-  induction l as [|x r IH]; intros h n h' n' l' L H; simpl in H.
+  intro HD. induction l as [|[k x] r IH]; intros h n h' n' l' L H; simpl in H.
   - inversion H; subst. splits; [apply agree_refl|lia|intros a []].
-  - destruct (copy_list (hset h n (hget h x), S n) r) as [[h1 n1] r'] eqn:E.
+  - rewrite HD in H. destruct (copy_list D (hset h n (hget h x), S n) r) as [[h1 n1] r'] eqn:E.
     inversion H; subst. apply IH in E as (A & L1 & F); [|lia]. splits.
     + eapply agree_trans; [apply agree_hset; exact L|exact A].
     + lia.
     + intros a [<-|Ha]; [exact L|apply F; exact Ha].
 Qed.
 
-Lemma copy_obj_spec n0 h n o h' n' o' :
-  (n0 <= n)%nat -> copy_obj (h, n) o = ((h', n'), o') ->
+Lemma copy_obj_spec D n0 h n o h' n' o' : (forall k, D k = true) ->
+  (n0 <= n)%nat -> copy_obj D (h, n) o = ((h', n'), o') ->
   agree n0 h h' /\ (n <= n')%nat /\ fresh_from n0 o'.
 Proof.
-  intros L H. unfold copy_obj in H.
+  intros HD L H. unfold copy_obj in H.
   destruct (copy_geo (h, n) (o_geo o)) as [[h1 n1] g] eqn:E1.
-  destruct (copy_list (h1, n1) (o_other o)) as [[h2 n2] l] eqn:E2.
+  destruct (copy_list D (h1, n1) (o_other o)) as [[h2 n2] l] eqn:E2.
   inversion H; subst.
   apply (copy_geo_spec n0) in E1 as (A1 & L1 & F1); [|exact L].
-  apply (copy_list_spec n0) in E2 as (A2 & L2 & F2); [|lia].
+  apply (copy_list_spec D n0 _ HD) in E2 as (A2 & L2 & F2); [|lia].
   splits; [eapply agree_trans; eauto|lia|].
   intros a Ha. unfold obj_addrs, kind_addrs in Ha. simpl in Ha.
   repeat (apply in_app_or in Ha as [Ha|Ha]); eauto.
@@ -285,57 +306,57 @@ Proof.
 Qed.
 
 (* after the copy: every step keeps the caller's objects *)
-Lemma exec1_fresh n0 s i s' :
-  fresh_from n0 (s_cur s) -> (n0 <= s_next s)%nat -> exec1 s i = Some s' ->
+Lemma exec1_fresh D n0 s i s' : (forall k, D k = true) ->
+  fresh_from n0 (s_cur s) -> (n0 <= s_next s)%nat -> exec1 D s i = Some s' ->
   agree n0 (s_heap s) (s_heap s') /\ fresh_from n0 (s_cur s') /\ (n0 <= s_next s')%nat.
 Proof.
-  intros F L H. destruct i; simpl in H.
+  intros HD F L H. destruct i; simpl in H.
   - inversion H; subst. splits; [apply agree_refl|exact F|exact L].
-  - destruct (copy_obj (s_heap s, s_next s) (s_cur s)) as [[h n] o] eqn:E. inversion H; subst. simpl.
-    apply (copy_obj_spec n0) in E as (A & L1 & F1); [|exact L]. splits; [exact A|exact F1|lia].
+  - destruct (copy_obj D (s_heap s, s_next s) (s_cur s)) as [[h n] o] eqn:E. inversion H; subst. simpl.
+    apply (copy_obj_spec D n0) in E as (A & L1 & F1); [|exact HD|exact L]. splits; [exact A|exact F1|lia].
   - destruct (conform (s_heap s) (s_cur s)) as [h|] eqn:E; [|discriminate]. inversion H; subst. simpl.
     splits; [eapply conform_agree; eauto|exact F|exact L].
-  - destruct (nth_error (o_other (s_cur s)) i) as [a|] eqn:E; inversion H; subst; simpl.
+  - destruct (nth_error (map snd (o_other (s_cur s))) i) as [a|] eqn:E; inversion H; subst; simpl.
     + splits; [|exact F|exact L]. apply agree_hset. apply F. unfold obj_addrs.
       apply in_or_app. right. apply in_or_app. right. apply in_or_app. right. eapply nth_error_In; eauto.
     + splits; [apply agree_refl|exact F|exact L].
 Qed.
 
-Lemma exec_fresh n0 p : forall s s' err,
-  fresh_from n0 (s_cur s) -> (n0 <= s_next s)%nat -> exec s p = (s', err) ->
+Lemma exec_fresh D n0 p : (forall k, D k = true) -> forall s s' err,
+  fresh_from n0 (s_cur s) -> (n0 <= s_next s)%nat -> exec D s p = (s', err) ->
   agree n0 (s_heap s) (s_heap s') /\ (n0 <= s_next s')%nat.
 Proof.
-  induction p as [|i r IH]; intros s s' err F L H; simpl in H.
+  intro HD. induction p as [|i r IH]; intros s s' err F L H; simpl in H.
   - inversion H; subst. split; [apply agree_refl|exact L].
-  - destruct (exec1 s i) as [s1|] eqn:E.
-    + apply (exec1_fresh n0) in E as (A & F1 & L1); auto.
+  - destruct (exec1 D s i) as [s1|] eqn:E.
+    + apply (exec1_fresh D n0) in E as (A & F1 & L1); auto.
       apply IH in H as (A2 & L2); auto. split; [eapply agree_trans; eauto|exact L2].
     + inversion H; subst. split; [apply agree_refl|exact L].
 Qed.
 
 (* a program that copies before it changes anything keeps every object the caller holds *)
-Lemma exec_copy_first p : forall s s' err,
-  copy_first p = true -> exec s p = (s', err) ->
+Lemma exec_copy_first D p : (forall k, D k = true) -> forall s s' err,
+  copy_first p = true -> exec D s p = (s', err) ->
   agree (s_next s) (s_heap s) (s_heap s') /\ (s_next s <= s_next s')%nat.
 Proof.
-  induction p as [|i r IH]; intros s s' err C H; simpl in H.
+  intro HD. induction p as [|i r IH]; intros s s' err C H; simpl in H.
   - inversion H; subst. split; [apply agree_refl|lia].
   - destruct i; simpl in C; try discriminate.
     + simpl in H. eapply IH; eassumption.
-    + simpl in H. destruct (copy_obj (s_heap s, s_next s) (s_cur s)) as [[h n] o] eqn:E.
-      apply (copy_obj_spec (s_next s)) in E as (A & L1 & F1); [|lia].
-      apply (exec_fresh (s_next s)) in H as (A2 & L2); simpl; auto.
+    + simpl in H. destruct (copy_obj D (s_heap s, s_next s) (s_cur s)) as [[h n] o] eqn:E.
+      apply (copy_obj_spec D (s_next s)) in E as (A & L1 & F1); [|exact HD|lia].
+      apply (exec_fresh D (s_next s)) in H as (A2 & L2); simpl; auto.
       split; [eapply agree_trans; eauto|exact L2].
 Qed.
 
-Lemma inputs_unchanged prog fields : forall h n h' n' err,
-  copy_first prog = true -> write_all prog h n fields = (h', n', err) ->
+Lemma inputs_unchanged D prog fields : (forall k, D k = true) -> forall h n h' n' err,
+  copy_first prog = true -> write_all_d D prog h n fields = (h', n', err) ->
   agree n h h' /\ (n <= n')%nat.
 Proof.
-  induction fields as [|f r IH]; intros h n h' n' err C H; simpl in H.
+  intro HD. induction fields as [|f r IH]; intros h n h' n' err C H; simpl in H.
   - inversion H; subst. split; [apply agree_refl|lia].
-  - destruct (exec (mkS h n f) prog) as [s e] eqn:E.
-    apply exec_copy_first in E as (A & L); [|exact C]. simpl in A, L.
+  - destruct (exec D (mkS h n f) prog) as [s e] eqn:E.
+    apply exec_copy_first in E as (A & L); [|exact HD|exact C]. simpl in A, L.
     destruct e.
     + inversion H; subst. split; [exact A|exact L].
     + apply IH in H as (A2 & L2); [|exact C]. split; [|lia].
@@ -351,7 +372,7 @@ Lemma writer_keeps_inputs cf18 later fields h n h' n' err :
   write_all (writer_prog cf18 later) h n fields = (h', n', err) ->
   forall a, (a < n)%nat -> hget h' a = hget h a.
 Proof.
-  intros H. eapply inputs_unchanged in H as [A _]; [exact A|apply writer_prog_copy_first].
+  intros H. unfold write_all in H. eapply inputs_unchanged in H as [A _]; [exact A|reflexivity|apply writer_prog_copy_first].
 Qed.
 
 (* seeded change 3 refuted: with the copy deferred, the caller's interior ring
@@ -367,4 +388,20 @@ Proof. eexists. split; [vm_compute; reflexivity|vm_compute; discriminate]. Qed.
 Lemma writer_keeps_inputs_example :
   exists h', write_all (writer_prog true []) ex_heap 2%nat [ex_obj] = (h', 4%nat, false)
              /\ hget h' 0%nat = [(1, 7)] /\ hget h' 1%nat = [] /\ hget h' 3%nat = [(1, 7)].
+Proof. eexists. split; [vm_compute; reflexivity|vm_compute; auto]. Qed.
+
+(* seeded change (second round) refuted: the list variable shared between a construct and the
+   writer's copy of it; the writer's nc_set_variable on the copy's list variable (ISet 0: key
+   0 = the netCDF variable name) renames the caller's *)
+Definition ex_heap2 : heap := [(0%nat, [(0, 5)])].
+Definition ex_obj2 : obj := mkO [] [(KList, 0%nat)].
+
+Lemma shared_list_refuted :
+  exists h', write_all_d list_shared (writer_prog true [ISet 0 0 6]) ex_heap2 1%nat [ex_obj2] = (h', 1%nat, false)
+             /\ hget h' 0%nat <> hget ex_heap2 0%nat.
+Proof. eexists. split; [vm_compute; reflexivity|vm_compute; discriminate]. Qed.
+
+Lemma deep_list_example :
+  exists h', write_all (writer_prog true [ISet 0 0 6]) ex_heap2 1%nat [ex_obj2] = (h', 2%nat, false)
+             /\ hget h' 0%nat = [(0, 5)] /\ hget h' 1%nat = [(0, 6); (0, 5)].
 Proof. eexists. split; [vm_compute; reflexivity|vm_compute; auto]. Qed.
